@@ -235,7 +235,7 @@ impl Track {
                     events.push(e.clone());
                     let mut noteoff = e.clone();
                     noteoff.etype = EventType::NoteOff;
-                    noteoff.time = e.time.wrapping_add(e.v2);
+                    noteoff.time = e.time.wrapping_add(e.v2.max(0)); // a note never ends before it begins (a negative gate would leave it sounding)
                     events.push(noteoff);
                 },
                 _ => {
